@@ -55,6 +55,7 @@ def gen_seq(ch):
         kind = ch.weighted([6, 2, 3, 2, 1, 1])
         ops.append((kind, ch.draw(2), ch.draw(3)))
     sc.ops = ops
+    sc.falsy_inst = ch.chance(1, 4)
     return sc
 
 
@@ -99,6 +100,10 @@ def make_class(sc, sim, runs, lock_type, state):
     class Holder:
         def __init__(self, iid):
             self.iid = iid
+
+    if getattr(sc, "falsy_inst", False):
+        # a container-like owner that is currently empty tests false: it owns its cached attribute all the same
+        Holder.__len__ = lambda self: 0
 
     Holder.attr = prop
     prop.__set_name__(Holder, "attr")
@@ -311,6 +316,7 @@ def gen_conc(ch):
     sc.interrupt = ch.draw(4)
     sc.backend = pick_backend(ch, 1, 4)
     sc.fault_kind = ch.draw(len(GETTER_ERRORS))
+    sc.falsy_inst = ch.chance(1, 4)
     return sc
 
 
